@@ -28,7 +28,14 @@ VARIANTS = {
             ('RCPT', 0, b'RCPT TO:<r{a}@y.example\r\n'), ('RCPT', 0, b'RCPT FROM:<r{a}@y.example>\r\n'), ('RCPT', 0, b'RCPT TO:<r\xff{a}@y>\r\n'),
             ('DATA', 0, b'DATA now\r\n'), ('RSET', 0, b'RSET all\r\n'), ('QUIT', 0, b'QUIT now\r\n')],
 }
+# sessions of a server configured with AUTH (PLAIN): a complete exchange in one line, and the malformed shapes
+AUTH_VARIANTS = {
+    'AUTH': [('AUTH', 1, b'AUTH PLAIN AHVzZXIAc2VjcmV0\r\n'), ('AUTH', 1, b'AUTH plain AHVzZXIAc2VjcmV0\r\n')],
+    'AUTHBAD': [('AUTH', 0, b'AUTH\r\n'), ('AUTH', 0, b'AUTH PLAIN !!!notbase64\r\n'), ('AUTH', 0, b'AUTH BOGUSMECH AHVzZXIAc2VjcmV0\r\n'),
+                ('AUTH', 0, b'AUTH PLAIN AHVzZXI=\r\n'), ('AUTH', 0, b'AUTH PLAIN *\r\n')],
+}
 ALPHA = ['EHLO', 'HELO', 'MAIL', 'RCPT', 'DATA', 'RSET', 'NOOP', 'QUIT', 'UNKNOWN', 'BAD']
+ALPHA_AUTH = ['EHLO', 'HELO', 'MAIL', 'RCPT', 'DATA', 'RSET', 'NOOP', 'QUIT', 'AUTH', 'AUTHBAD']
 VERD = [0, 0, 0, 450, 550, 421]
 
 
@@ -48,7 +55,9 @@ def run_session(seq, verdicts, rnd, cfg_extra=None):
     for sym in seq:
         if s.done:
             break
-        kind, wf, tmpl = rnd.choice(VARIANTS[sym])
+        kind, wf, tmpl = rnd.choice(AUTH_VARIANTS[sym] if sym in AUTH_VARIANTS else VARIANTS[sym])
+        if sym == 'UNKNOWN' and cfg.get('auth') and tmpl.startswith(b'AUTH'):
+            kind, wf, tmpl = VARIANTS['UNKNOWN'][0]
         na[0] += 1
         line = tmpl.replace(b'{a}', b'%d' % na[0])
         addr = 0
@@ -75,11 +84,11 @@ def main():
     stats = {'executions': 0}
     n = 0
 
-    def emit(cls, seq, verdicts):
+    def emit(cls, seq, verdicts, auth=False):
         nonlocal n
-        ev = run_session(seq, verdicts, rnd)
+        ev = run_session(seq, verdicts, rnd, {'auth': [b'PLAIN']} if auth else None)
         stats['executions'] += 1
-        f.write(json.dumps({'id': shard + n * nshards, 'cls': cls, 'cfg': {'stall': 0, 'deadline': 0, 'seq': seq}, 'ev': ev},
+        f.write(json.dumps({'id': shard + n * nshards, 'cls': cls, 'cfg': {'stall': 0, 'deadline': 0, 'seq': seq, 'auth': 1 if auth else 0}, 'ev': ev},
                            separators=(',', ':')) + '\n')
         n += 1
 
@@ -95,6 +104,25 @@ def main():
                 if L == 4 and rnd.random() > 0.3:
                     continue
                 emit('seq', prefix + list(seq), {})
+    # the same with AUTH configured: every sequence over the AUTH alphabet, and AUTH verdicts
+    for prefix in ([], ['EHLO'], ['EHLO', 'AUTH'], ['EHLO', 'MAIL'], ['HELO']):
+        for L in range(1, depth + 1):
+            for seq in itertools.product(ALPHA_AUTH, repeat=L):
+                if not any(x.startswith('AUTH') for x in prefix + list(seq)):
+                    continue
+                idx += 1
+                if idx % nshards != shard:
+                    continue
+                if L >= 3 and rnd.random() > (0.5 if L == 3 else 0.15):
+                    continue
+                emit('authseq', prefix + list(seq), {}, auth=True)
+    for va in (0, 450, 535, 421):
+        for vb in (0, 535):
+            idx += 1
+            if idx % nshards != shard:
+                continue
+            emit('authverdict', ['EHLO', 'AUTH', 'AUTH', 'MAIL', 'AUTH', 'RCPT', 'DATA', 'AUTH', 'QUIT'], {'auth': [va, vb, 0, 0]}, auth=True)
+            emit('authverdict', ['AUTH', 'EHLO', 'AUTHBAD', 'AUTH', 'EHLO', 'AUTH', 'MAIL', 'RCPT', 'DATA'], {'auth': [va, vb, 0, 0]}, auth=True)
     # validator verdicts: a full transaction skeleton x every verdict assignment
     skeleton = ['EHLO', 'MAIL', 'RCPT', 'RCPT', 'DATA', 'MAIL', 'RCPT', 'DATA', 'QUIT']
     for vs in itertools.product([0, 450, 550, 421], repeat=4):
